@@ -100,6 +100,7 @@ fn run_child(dir: &Path) -> ChildOut {
 // ------------------------------------------------------------------ parent
 #[derive(Clone, Copy, Debug, PartialEq, Eq, Hash)]
 enum Dmg {
+    FlipTxnId,
     FlipRandom,
     FlipLenPrefix,
     FlipTagOrHeader,
@@ -118,7 +119,7 @@ enum Dmg {
     SnapHeader,
     SnapData,
 }
-const WAL_DMG: [Dmg; 14] = [Dmg::FlipRandom, Dmg::FlipLenPrefix, Dmg::FlipTagOrHeader, Dmg::FlipKey, Dmg::FlipValue, Dmg::FlipHmac, Dmg::Overwrite, Dmg::Truncate, Dmg::AppendGarbage, Dmg::DuplicateRecord, Dmg::Transplant, Dmg::LenZero, Dmg::LenHuge, Dmg::LenMax];
+const WAL_DMG: [Dmg; 15] = [Dmg::FlipTxnId, Dmg::FlipRandom, Dmg::FlipLenPrefix, Dmg::FlipTagOrHeader, Dmg::FlipKey, Dmg::FlipValue, Dmg::FlipHmac, Dmg::Overwrite, Dmg::Truncate, Dmg::AppendGarbage, Dmg::DuplicateRecord, Dmg::Transplant, Dmg::LenZero, Dmg::LenHuge, Dmg::LenMax];
 const SNAP_DMG: [Dmg; 6] = [Dmg::FlipRandom, Dmg::SnapHeaderSize, Dmg::SnapHeader, Dmg::SnapData, Dmg::Truncate, Dmg::AppendGarbage];
 
 struct Built {
@@ -128,7 +129,9 @@ struct Built {
     written: HashMap<String, BTreeSet<Val>>,
 }
 
-async fn build_store(rng: &mut Rng, foreign: bool) -> Option<Built> {
+/// `twin_of`: replay the same operation sequence (same keys, kinds and therefore the same transaction
+/// numbering) with other values into another store (other integrity key)
+async fn build_store(rng: &mut Rng, foreign: bool, twin_of: Option<&[Op]>) -> Option<Built> {
     let dir = scratch("c07b");
     let m = Mgr::new(config(&dir, FlushStrategy::Always)).await.ok()?;
     let nkeys = rng.urange(2, 7);
@@ -137,9 +140,19 @@ async fn build_store(rng: &mut Rng, foreign: bool) -> Option<Built> {
     let mut model = BTreeMap::new();
     let mut ops = Vec::new();
     let mut opid = if foreign { 1u64 << 50 } else { rng.next_u64() >> 24 };
-    for _ in 0..nops {
+    let revalue = |o: &Op, base: u64| -> Op {
+        match o {
+            Op::Upsert(k, _) => Op::Upsert(k.clone(), (base, k.clone())),
+            Op::Batch(c) => Op::Batch(c.iter().enumerate().map(|(j, (k, v))| (k.clone(), v.as_ref().map(|_| (base * 100 + j as u64, k.clone())))).collect()),
+            other => other.clone(),
+        }
+    };
+    for i in 0..twin_of.map(|t| t.len()).unwrap_or(nops) {
         opid += 1;
-        let op = gen_op(rng, opid, nkeys, &model, with_checkpoints);
+        let op = match twin_of {
+            Some(t) => revalue(&t[i], opid),
+            None => gen_op(rng, opid, nkeys, &model, with_checkpoints),
+        };
         let _ = run_op(&m, &op).await;
         apply(&mut model, &op);
         ops.push(op);
@@ -187,6 +200,17 @@ fn damage(rng: &mut Rng, img: &mut DirImage, d: Dmg, file_idx: usize, foreign: &
             let in_prefix = ri.is_some_and(|i| at < recs[i].0 + 4);
             (ri, !in_prefix, at)
         }
+        Dmg::FlipTxnId => match pick_rec(rng) {
+            // byte 1 of the body starts the transaction-id varint (byte 0 is the version)
+            Some(i) => {
+                let at = recs[i].0 + 4 + 1;
+                if at < bytes.len() {
+                    bytes[at] ^= 1 << rng.below(3);
+                }
+                (Some(i), true, at)
+            }
+            None => (None, true, 0),
+        },
         Dmg::FlipLenPrefix => match pick_rec(rng) {
             Some(i) => {
                 let at = recs[i].0 + rng.usize_below(4);
@@ -259,9 +283,16 @@ fn damage(rng: &mut Rng, img: &mut DirImage, d: Dmg, file_idx: usize, foreign: &
             if let Some((_, fb)) = f.first() {
                 let fr = wal_records(fb);
                 if !fr.is_empty() {
-                    let (o, l, _) = &fr[rng.usize_below(fr.len())];
+                    let fi = rng.usize_below(fr.len());
+                    let (o, l, _) = &fr[fi];
                     let rec = fb[*o..*o + *l].to_vec();
-                    let at = if recs.is_empty() || rng.chance(0.5) { bytes.len() } else { recs[rng.usize_below(recs.len())].0 };
+                    // in front of the record with the same index (a twin store has the same transaction there), at the end, or anywhere
+                    let at = match rng.below(3) {
+                        0 if fi < recs.len() => recs[fi].0,
+                        1 => bytes.len(),
+                        _ if !recs.is_empty() => recs[rng.usize_below(recs.len())].0,
+                        _ => bytes.len(),
+                    };
                     let idx = recs.iter().position(|(ro, _)| *ro == at).unwrap_or(recs.len());
                     bytes.splice(at..at, rec);
                     return (Some(idx), true, at);
@@ -351,11 +382,13 @@ fn keys_touched_from(img: &DirImage, file: &str, from: usize) -> BTreeSet<String
 }
 
 async fn scenario(mon: &Monitor, rng: &mut Rng, per_store: usize) {
-    let Some(b) = build_store(rng, false).await else {
+    let Some(b) = build_store(rng, false, None).await else {
         mon.inconclusive("could not build a store");
         return;
     };
-    let Some(f) = build_store(rng, true).await else { return };
+    // the other store: half of the time a twin (same keys, kinds and transaction numbers, other values)
+    let twin = rng.chance(0.5);
+    let Some(f) = build_store(rng, true, if twin { Some(&b.ops) } else { None }).await else { return };
     // reference: recovery of the undamaged image
     let dir0 = scratch("c07r");
     materialize(&b.image, &dir0);
@@ -520,5 +553,7 @@ fn main() {
         });
     });
     scratch_cleanup();
+    // supplementary sanitizer lane (thorough): recovery of damaged directories under AddressSanitizer
+    checks::lanes::run(&mon, "asan", "c07", "60");
     mon.finish();
 }
